@@ -12,6 +12,7 @@ from .utils.typing_compat import (
     is_annotated, get_args, eval_forward_ref_if_needed
 )
 from .v1.models import Field
+from ._verif import yp as _yp  # verification hook H2 (no-op by default)
 
 # A cached mapping of dataclass to the list of fields, as returned by
 # `dataclasses.fields()`.
@@ -154,10 +155,12 @@ def _setup_load_config_for_cls(cls_loader,
     dataclass_field_to_path = DATACLASS_FIELD_TO_JSON_PATH[cls]
     set_paths = False if dataclass_field_to_path else True
     v1_disabled = config is None or not config.v1
+    _yp('load_cfg.begin')
 
     name_to_parser = {}
 
     for f in  dataclass_init_fields(cls):
+        _yp('load_cfg.field')
         field_extras: Extras = {'config': config}
 
         field_type = f.type = eval_forward_ref_if_needed(f.type, cls)
@@ -228,6 +231,7 @@ def _setup_load_config_for_cls(cls_loader,
         parser_dict = DictWithLowerStore(name_to_parser)
         # only cache the load parser for the class if `save` is enabled
         if save:
+            _yp('load_cfg.store')
             FIELD_NAME_TO_LOAD_PARSER[cls] = parser_dict
 
         return parser_dict
@@ -239,15 +243,18 @@ def setup_dump_config_for_cls_if_needed(cls):
 
     if cls in IS_DUMP_CONFIG_SETUP:
         return
+    _yp('dump_cfg.begin')
 
     field_to_alias = DATACLASS_FIELD_TO_ALIAS[cls]
 
     field_to_path = DATACLASS_FIELD_TO_JSON_PATH[cls]
     set_paths = False if field_to_path else True
+    _yp('dump_cfg.paths_read')
 
     dataclass_field_to_skip_if = DATACLASS_FIELD_TO_SKIP_IF[cls]
 
     for f in dataclass_fields(cls):
+        _yp('dump_cfg.field')
 
         field_type = f.type = eval_forward_ref_if_needed(f.type, cls)
 
@@ -310,6 +317,7 @@ def setup_dump_config_for_cls_if_needed(cls):
                     dataclass_field_to_skip_if[f.name] = extra
 
     # Mark the dataclass as processed, as the initial dump process is set up.
+    _yp('dump_cfg.flag')
     IS_DUMP_CONFIG_SETUP[cls] = True
 
 
@@ -365,12 +373,15 @@ def _setup_v1_load_config_for_cls(
     load_dataclass_field_to_alias = DATACLASS_FIELD_TO_ALIAS_FOR_LOAD[cls]
     dump_dataclass_field_to_alias = DATACLASS_FIELD_TO_ALIAS[cls]
 
+    _yp('v1_cfg.begin')
     dataclass_field_to_path = DATACLASS_FIELD_TO_ALIAS_PATH_FOR_LOAD[cls]
     dump_dataclass_field_to_path = DATACLASS_FIELD_TO_JSON_PATH[cls]
 
     set_paths = False if dataclass_field_to_path else True
+    _yp('v1_cfg.paths_read')
 
     for f in  dataclass_init_fields(cls):
+        _yp('v1_cfg.field')
         # field_extras: Extras = {'config': config}
 
         field_type = f.type = eval_forward_ref_if_needed(f.type, cls)
@@ -415,6 +426,7 @@ def _setup_v1_load_config_for_cls(
                                    load_dataclass_field_to_alias,
                                    dump_dataclass_field_to_alias)
 
+    _yp('v1_cfg.flag')
     IS_V1_LOAD_CONFIG_SETUP.add(cls)
 
     return load_dataclass_field_to_alias
@@ -479,6 +491,7 @@ def create_meta(cls, cls_name=None, **kwargs):
 def dataclass_fields(cls):
 
     if cls not in FIELDS:
+        _yp('fields.miss')
         FIELDS[cls] = fields(cls)
 
     return FIELDS[cls]
@@ -502,8 +515,11 @@ def dataclass_init_field_names(cls):
 def dataclass_field_to_default(cls):
 
     if cls not in FIELD_TO_DEFAULT:
+        _yp('defaults.miss')
         defaults = FIELD_TO_DEFAULT[cls] = {}
+        _yp('defaults.registered')
         for f in dataclass_fields(cls):
+            _yp('defaults.fill')
             if f.default is not MISSING:
                 defaults[f.name] = f.default
             elif f.default_factory is not MISSING:
